@@ -5,7 +5,7 @@ Property theorems only (model: Rpft/Schema, RowParse, RowUnparse, RowSpec; helpe
 Rpft/Lemmas/Row.lean, Codec.lean).  Strings, integers, list lengths and the number of
 fields are unbounded in every theorem.
 -/
-import Rpft.Lemmas.RowElems
+import Rpft.Lemmas.RowElemSub
 import Rpft.FlowSchema
 import Rpft.Gen.Tables
 set_option linter.unusedSimpArgs false
@@ -105,13 +105,6 @@ def famTy : Ty → Bool
 
 def family (fs : List Field) : Bool := fs.all fun f => famTy f.2.1
 
-/-- layouts in which every element of a list of sub-records is packed into its own cell
-`f.1, f.2, …` (what the target header `f.*` does, see `matches_star_index`); the elements of
-such a list are not proved spread over `f.1.a, f.1.b, …` -/
-def ElemsPacked (lay : Layout) (fs : List Field) : Prop :=
-  ∀ n sfs d, (n, Ty.list (plainTop sfs), d) ∈ fs →
-    ∀ i, matchesHeaders (idxPrefix ('.' :: n) i) lay.targets = true
-
 theorem packDepth_list_model (sfs : List Field) (h2f f2h : List (Str × Str)) :
     ¬ packDepth (.list (.model sfs h2f f2h)) ≤ 2 := by
   simp [packDepth]; omega
@@ -132,9 +125,7 @@ theorem admFields_mem (targets : List Str) (f2h : List (Str × Str)) (pfx : Str)
 theorem fieldRT_fam {lay : Layout} {fs : List Field} {n : Str} {ty : Ty} {d : Option Val} {v : Val}
     (hn : simpleName n = true) (hf : fieldLookup n fs = some (n, ty, d)) (he : lay.excluded = [])
     (hfam : famTy ty = true) (hfo : fieldOk false ty v = true) (hr : reprOk false ty v = true)
-    (hadm : admTy lay.targets ty ('.' :: n) = true)
-    (hpk : ∀ sfs, ty = .list (plainTop sfs) →
-      ∀ i, matchesHeaders (idxPrefix ('.' :: n) i) lay.targets = true) :
+    (hadm : admTy lay.targets ty ('.' :: n) = true) :
     FieldRT lay fs n ty v := by
   cases ty with
   | str => exact fieldRT_basic hn hf he rfl hr
@@ -165,15 +156,15 @@ theorem fieldRT_fam {lay : Layout} {fs : List Field} {n : Str} {ty : Ty} {d : Op
         cases t with
         | model sfs h2f f2h =>
           cases h2f <;> cases f2h <;> simp [famTy, isBasicTy] at hfam
-          have hes : (xs.map (elemOfSub sfs)).map (·.1) = xs := by
-            rw [List.map_map]
-            conv => rhs; rw [← List.map_id xs]
-            exact List.map_congr_left (fun x _ => elemOfSub_fst sfs x)
+          have hfst : ∀ i v, (elemCOfSub lay n sfs i v).1 = v := by
+            intro i v; cases v <;> simp [elemCOfSub]; split <;> rfl
+          have hes := enumElems_fst (elemCOfSub lay n sfs) hfst 1 xs
           rw [← hes]
-          exact fieldRT_list_elems hn hf he hm _ (by simpa using hne) (by
-            intro e hmem
-            obtain ⟨x, hx, rfl⟩ := List.mem_map.mp hmem
-            exact elemOk_sub he n hfam (hr x hx) (hpk sfs rfl))
+          refine fieldRT_of_elemRT (d := d) hn he hm _ ?_ ?_
+          · intro e; rw [e] at hes; simp at hes; exact hne hes
+          · intro j e hj
+            obtain ⟨x, hx, rfl⟩ := enumElems_get _ 1 xs j e hj
+            exact elemRT_sub hn hf he hfam (1 + j) (hr x hx)
         | anyList => simp [famTy, isBasicTy] at hfam
         | list _ => simp [famTy, isBasicTy] at hfam
         | str | int | float | bool =>
@@ -197,15 +188,16 @@ theorem fieldRT_fam {lay : Layout} {fs : List Field} {n : Str} {ty : Ty} {d : Op
     | _ => simp [reprOk] at hr
 
 /-- **Records of basic fields, lists of basic values, sub-records and lists of sub-records,
-in every layout of the family**: each list of basic values independently spread over
-`f.1, f.2, …` or packed into one cell `x|y|z`; each sub-record spread over `f.a, f.b, …` or
-packed as `a;va|b;vb`; each list of sub-records with its elements packed one per cell
-(`f.*`); as selected by ANY admissible target-header set; any number of fields, unbounded
-strings, integers and list lengths; default-valued fields elided and restored. -/
+in every admissible layout**: each list of basic values independently spread over `f.1, f.2, …` or
+packed into one cell `x|y|z`; each sub-record spread over `f.a, f.b, …` or packed as
+`a;va|b;vb`; each ELEMENT of a list of sub-records independently packed into its cell `f.i`
+or spread over `f.i.a, f.i.b, …`; as selected by ANY admissible target-header set (with `*`
+or concrete indices); any number of fields, unbounded strings, integers and list lengths;
+default-valued fields elided and restored. -/
 theorem parse_unparse_partial (fs : List Field) (lay : Layout) (v : Val)
     (hwf : wfFieldNames fs = true) (hfam : family fs = true)
     (hr : Representable (plainTop fs) v = true)
-    (ha : Admissible { top := plainTop fs } lay = true) (hpk : ElemsPacked lay fs) :
+    (ha : Admissible { top := plainTop fs } lay = true) :
     RoundTrip { top := plainTop fs } lay v := by
   cases v <;> simp [Representable] at hr
   case model kvs =>
@@ -233,7 +225,7 @@ theorem parse_unparse_partial (fs : List Field) (lay : Layout) (v : Val)
       have hadm' := admFields_mem lay.targets [] [] fs hadm p.1 hmem (remap_nil _)
       simp only [List.nil_append] at hadm'
       exact fieldRT_fam (d := p.1.2.2) (hsimple p.1 hmem) (fieldLookup_mem fs hnd p.1 hmem) he hb hfo h
-        hadm' (fun sfs hty i => hpk p.1.1 sfs p.1.2.2 (by rw [← hty]; exact hmem) i)
+        hadm' 
 
 /-- flat records are the special case -/
 theorem flat_in_family (fs : List Field) (h : flatFamily fs = true) : family fs = true := by
@@ -304,10 +296,6 @@ def exFamVal : Val :=
 def exLayouts : List Layout :=
   [{}, { targets := ["xs".toList] }, { targets := ["s".toList] },
    { targets := ["xs".toList, "s".toList, "ys".toList] }, { targets := ["*".toList] }]
-
-theorem exFam_elemsPacked (lay : Layout) : ElemsPacked lay exFam := by
-  intro n sfs d hmem
-  simp [exFam] at hmem
 
 /-- the hypotheses of `parse_unparse_partial` hold for a non-trivial value in five layouts
 (all spread, only the list packed, only the sub-record packed, everything packed, `*`) -/
@@ -387,25 +375,20 @@ def exItemsVal : Val :=
       .model [("p".toList, .str []), ("q".toList, .int 12), ("w".toList, .bool false),
         ("z".toList, .str "y|".toList)]])]
 
-def exItemsLay : Layout := { targets := ["items.*".toList] }
+def exItemsLays : List Layout :=
+  [{}, { targets := ["items.*".toList] }, { targets := ["items.2".toList, "ns".toList] }]
 
-/-- non-vacuity for lists of integers and lists of sub-records packed one per cell by the
-target header `items.*` (`ElemsPacked` holds for every index, by `matches_star_index`) -/
+/-- non-vacuity for lists of integers and lists of sub-records: all elements spread, all
+elements packed by `items.*`, only the second element packed (and the number list packed) -/
 example : wfFieldNames exItems = true ∧ family exItems = true ∧
     Representable (plainTop exItems) exItemsVal = true ∧
-    Admissible { top := plainTop exItems } exItemsLay = true ∧
-    roundTrips { top := plainTop exItems } exItemsLay exItemsVal = true := by decide +kernel
+    exItemsLays.all (fun lay => Admissible { top := plainTop exItems } lay &&
+      roundTrips { top := plainTop exItems } lay exItemsVal) = true := by decide +kernel
 
-example : ElemsPacked exItemsLay exItems := by
-  intro n sfs d hmem i
-  have hn : n = "items".toList := by
-    simp [exItems] at hmem
-    exact hmem.1
-  subst hn
-  exact matches_star_index (by decide) _ (by decide) i
-
-/-- without `items.*` the elements are spread over `items.1.p, …`: outside the proved family
-(the general statement `C07_full` covers it; the model and the real code do round-trip) -/
-example : roundTrips { top := plainTop exItems } {} exItemsVal = true := by decide +kernel
+/-- `Admissible` is needed for lists of sub-records: packing the whole list needs three levels -/
+theorem needs_admissible_list_of_records :
+    Admissible { top := plainTop exItems } { targets := ["items".toList] } = false ∧
+    roundTrips { top := plainTop exItems } { targets := ["items".toList] } exItemsVal = false := by
+  decide +kernel
 
 end Rpft.Props.C07
